@@ -95,6 +95,10 @@ func newConcr(keys, vals []string, stype string, rng *rand.Rand, big ...string) 
 			c.val[v] = b
 		}
 	}
+	// the empty value is a value: a key put with it is present (one behaviour in three, key-value and log stores)
+	if stype != "doc" && len(big) == 0 && len(vals) > 0 && rng.Intn(3) == 0 {
+		c.val[vals[rng.Intn(len(vals))]] = []byte{}
+	}
 	// abstract values must stay distinguishable when read back (at most one may be empty)
 	seen := map[string]bool{}
 	for _, v := range vals {
